@@ -2,7 +2,7 @@
 CHECK = {
     "pkg": ".", "files": ["root/c35_test.go"], "run": "^TestC35",
     "quick": {"scale": 1, "shards": 1, "timeout": 600},
-    "thorough": {"scale": 8, "shards": 8, "timeout": 1500},
+    "thorough": {"scale": 80, "shards": 8, "timeout": 1800},
     "rule": "per case a LightHouse is built from a generated config (lighthouse or client with 0-2 configured lighthouses, "
             "one known under its second overlay address; static hosts; one or two overlay networks; v1/v2 default version; "
             "punchy.respond on/off) inside a synctest bubble and fed 1..30 requests from 7 peers (single- and multi-address, "
